@@ -505,7 +505,7 @@ impl Property for C03 {
                     out.into_iter()
                 }))
             }),
-            Stage::random("random-layouts", tier.pick(400_000, 4_000_000), case_strategy),
+            Stage::random("random-layouts", tier.pick(1_000_000, 20_000_000), case_strategy),
         ]
     }
 
